@@ -2383,7 +2383,7 @@ func chanElement(t *itype) *itype {
 	return nil
 }
 
-func isBool(t *itype) bool { return t.TypeOf().Kind() == reflect.Bool }
+func isBool(t *itype) bool { return isBoolean(t.TypeOf()) }
 func isChan(t *itype) bool { return t.TypeOf().Kind() == reflect.Chan }
 func isFunc(t *itype) bool { return t.TypeOf().Kind() == reflect.Func }
 func isMap(t *itype) bool  { return t.TypeOf().Kind() == reflect.Map }
